@@ -204,7 +204,9 @@ def contracts():
     # ---- include handling: every file read once, recursion terminates, lists appended, global options: later file wins
     c["read_cnf"] = FnSpec(ret="r", ghost=True, sig="""
     requires old(w).opened == paths(old(loaded_files)@), paths(old(loaded_files)@).subset_of(cnf_universe()), cnf_universe().finite(),
+        all_canonical(paths(old(loaded_files)@)),
     ensures r is Ok ==> final(w).opened == paths(final(loaded_files)@) && paths(final(loaded_files)@).subset_of(cnf_universe())
+        && all_canonical(paths(final(loaded_files)@))
         && paths(old(loaded_files)@).subset_of(paths(final(loaded_files)@)),
     decreases cnf_universe().len() - paths(old(loaded_files)@).len(), //@C19.include_recursion_terminates
 """, loops={1: """
@@ -242,7 +244,7 @@ def contracts():
                 assert(global_merged(cfg0.global, add0.global, config.global)); //@C14.later_global_option_wins
             }"""),
             ],
-        rewrites=[("T-ITER", r"for cnf_path in get_cnf_path\(&path, cnf_name\)\?", "for cnf_path in get_cnf_path(&path, cnf_name)?")])
+        )
     return c
 
 
@@ -317,12 +319,16 @@ pub type Path = PathBuf;
 pub struct Display { pub s: String }
 impl Display { #[verifier::external_body] pub fn to_string(&self) -> String { unimplemented!() } }
 pub uninterp spec fn cnf_universe() -> Set<Seq<char>>;   // assumption: finitely many configuration files exist
+// the identity of the file a path designates: its canonical path (symlinks, `..` and relative parts resolved)
+pub uninterp spec fn canon(p: Seq<char>) -> Seq<char>;
 impl Clone for PathBuf { #[verifier::external_body] fn clone(&self) -> (r: Self) ensures r == *self { unimplemented!() } }
 impl PathBuf {
     pub open spec fn view(&self) -> Seq<char> { self.s@ }
     #[verifier::external_body]
     pub fn canonicalize(&self) -> (r: Result<PathBuf, crate::acme_common::error::IoError>)
-        ensures r matches Ok(p) ==> cnf_universe().contains(p@) { unimplemented!() }
+        ensures r matches Ok(p) ==> cnf_universe().contains(p@) && p@ == canon(self@) && canon(p@) == p@ { unimplemented!() }
+    #[verifier::external_body]
+    pub fn to_path_buf(&self) -> (r: PathBuf) ensures r == *self { unimplemented!() }
     #[verifier::external_body]
     pub fn display(&self) -> Display { unimplemented!() }
 }
@@ -340,8 +346,8 @@ impl File {
     // C14: a configuration file is opened only if it has not been opened before
     #[verifier::external_body]
     pub fn open(p: &PathBuf, Tracked(w): Tracked<&mut World>) -> (r: Result<File, crate::acme_common::error::IoError>)
-        requires !old(w).opened.contains(p@), //@C14.each_file_read_once
-        ensures final(w).opened == old(w).opened.insert(p@)
+        requires !old(w).opened.contains(canon(p@)), //@C14.each_file_read_once
+        ensures final(w).opened == old(w).opened.insert(canon(p@))
     { unimplemented!() }
     #[verifier::external_body]
     pub fn read_to_string(&mut self, s: &mut String) -> (r: Result<usize, crate::acme_common::error::IoError>) { unimplemented!() }
@@ -375,19 +381,20 @@ impl Clone for GlobalOptions {
 
 SPEC = """
 // ---- include bookkeeping, kept opaque so that the set algebra stays out of the big loop-body query
+pub open spec fn all_canonical(s: Set<Seq<char>>) -> bool { forall|x: Seq<char>| s.contains(x) ==> canon(x) == x }
 #[verifier::opaque]
 pub open spec fn cnf_inv(w: World, loaded: Seq<PathBuf>, loaded0: Seq<PathBuf>, path: Seq<char>) -> bool {
-    &&& w.opened == paths(loaded) && paths(loaded).subset_of(cnf_universe()) && cnf_universe().finite()
+    &&& w.opened == paths(loaded) && paths(loaded).subset_of(cnf_universe()) && cnf_universe().finite() && all_canonical(paths(loaded))
     &&& paths(loaded0).insert(path).subset_of(paths(loaded)) && !paths(loaded0).contains(path)
 }
 pub proof fn lemma_cnf_start(w: World, loaded: Seq<PathBuf>, loaded0: Seq<PathBuf>, path: Seq<char>)
     requires w.opened == paths(loaded), paths(loaded) == paths(loaded0).insert(path), paths(loaded0).subset_of(cnf_universe()),
-        cnf_universe().finite(), cnf_universe().contains(path), !paths(loaded0).contains(path)
+        cnf_universe().finite(), cnf_universe().contains(path), !paths(loaded0).contains(path), all_canonical(paths(loaded0)), canon(path) == path
     ensures cnf_inv(w, loaded, loaded0, path)
 { reveal(cnf_inv); }
 pub proof fn lemma_cnf_call(w: World, loaded: Seq<PathBuf>, loaded0: Seq<PathBuf>, path: Seq<char>)
     requires cnf_inv(w, loaded, loaded0, path)
-    ensures w.opened == paths(loaded), paths(loaded).subset_of(cnf_universe()), cnf_universe().finite(),
+    ensures w.opened == paths(loaded), paths(loaded).subset_of(cnf_universe()), cnf_universe().finite(), all_canonical(paths(loaded)),
         cnf_universe().len() - paths(loaded).len() < cnf_universe().len() - paths(loaded0).len(),
         cnf_universe().len() - paths(loaded).len() >= 0
 {
@@ -397,12 +404,12 @@ pub proof fn lemma_cnf_call(w: World, loaded: Seq<PathBuf>, loaded0: Seq<PathBuf
 }
 pub proof fn lemma_cnf_after(w: World, before: Seq<PathBuf>, loaded: Seq<PathBuf>, loaded0: Seq<PathBuf>, path: Seq<char>)
     requires cnf_inv(World { opened: paths(before) }, before, loaded0, path),
-        w.opened == paths(loaded), paths(loaded).subset_of(cnf_universe()), paths(before).subset_of(paths(loaded))
+        w.opened == paths(loaded), paths(loaded).subset_of(cnf_universe()), paths(before).subset_of(paths(loaded)), all_canonical(paths(loaded))
     ensures cnf_inv(w, loaded, loaded0, path)
 { reveal(cnf_inv); }
 pub proof fn lemma_cnf_end(w: World, loaded: Seq<PathBuf>, loaded0: Seq<PathBuf>, path: Seq<char>)
     requires cnf_inv(w, loaded, loaded0, path)
-    ensures w.opened == paths(loaded), paths(loaded).subset_of(cnf_universe()), paths(loaded0).subset_of(paths(loaded))
+    ensures w.opened == paths(loaded), paths(loaded).subset_of(cnf_universe()), paths(loaded0).subset_of(paths(loaded)), all_canonical(paths(loaded))
 { reveal(cnf_inv); }
 // ---- include merge: for each global option the later file's value wins when it gives one
 pub open spec fn later<T>(earlier: Option<T>, newer: Option<T>) -> Option<T> { match newer { Some(v) => Some(v), None => earlier } }
